@@ -3,6 +3,8 @@ from __future__ import annotations
 
 import ast
 import json as stdjson
+import json
+import anyio
 import math
 import os
 import pickle
@@ -723,6 +725,65 @@ def very_deep_probe(ctx):
                                        f"depth {rr['depth']} leaf {rr['leaf']!r}, expected {d} / {leaf!r}")
 
 
+async def _reader_frames(lines):
+    """Every line (bytes, without terminator) goes through the REAL stdio reader, alone in its own chunk; returns per line the
+    canonical forms of what the reader delivered."""
+    from fakeproc import FakeProcess, patched_open_process
+    from chuk_mcp.transports.stdio.stdio_client import StdioClient
+    from chuk_mcp.transports.stdio.parameters import StdioParameters
+    out = []
+    proc = FakeProcess()
+    with patched_open_process(proc):
+        client = StdioClient(StdioParameters(command="fake-child", args=[]))
+        async with client:
+            for ln in lines:
+                proc.stdout.feed(ln + b"\n")
+                with anyio.move_on_after(5):
+                    await proc.stdout.drained()
+                got = []
+                while True:
+                    try:
+                        m = client._incoming_recv.receive_nowait()
+                    except anyio.WouldBlock:
+                        break
+                    got.append(json.dumps(m.model_dump(exclude_none=True), sort_keys=True))
+                out.append(got)
+            proc.stdout.close()
+    return out
+
+
+def frames_through_the_reader(ctx):
+    """'every encoded message is exactly one NDJSON frame' - as the library's OWN stdio reader frames it: each compact encoding
+    (both back ends) of a message whose strings / keys hold U+0085, U+2028, U+2029, CR/LF escapes, astral characters is handed
+    to the real reader followed by one LF and must come out as exactly one message, the same one."""
+    import chuk_mcp.protocol.fast_json as FJ
+    texts = ["a\u2028b", "\u2029", "x\u0085y", "line\nbreak", "cr\rlf", "\U0001F600", "plain", "\u2028\u2029\u0085", ""]
+    msgs = []
+    for i, t in enumerate(texts):
+        msgs.append({"jsonrpc": "2.0", "id": f"f{i}", "result": {"s": t, "k" + t: [t, {"n": None}]}})
+        msgs.append({"jsonrpc": "2.0", "method": "notifications/x", "params": {"s": t}})
+    lines, meta = [], []
+    saved = FJ.HAS_ORJSON
+    try:
+        for backend in ([True, False] if saved else [False]):
+            FJ.HAS_ORJSON = backend
+            for m in msgs:
+                lines.append(FJ.dumps(m).encode("utf-8"))
+                meta.append(("orjson" if backend else "stdlib", m))
+    finally:
+        FJ.HAS_ORJSON = saved
+    got = anyio.run(_reader_frames, lines)
+    for (backend, m), ln, g in zip(meta, lines, got):
+        case = {"backend": backend, "message": m, "line": ln.decode("utf-8")}
+        ctx.case(case, nontrivial=True)
+        ctx.count("reader-frame:" + backend)
+        ctx.spec_total += 1
+        want = json.dumps(m, sort_keys=True)
+        if g != [want]:
+            ctx.spec_violation(f"encoding-is-not-one-frame-for-the-stdio-reader:{backend}", case,
+                               f"the reader delivered {len(g)} message(s) for this one line" + ("" if not g else f": {g[0][:200]}"))
+
+
 def run(ctx):
     lib.standard_obligations(ctx, GEN, TARGETS)
     spec = lib.Driver("C17Spec")
@@ -757,6 +818,7 @@ def run(ctx):
         go()
     invalid_text_probe(ctx)
     very_deep_probe(ctx)
+    frames_through_the_reader(ctx)
     ctx.exhaustive = False
     if ctx.thorough:
         lib.coqchk(ctx, "C17")
@@ -768,12 +830,22 @@ def run(ctx):
                 "each value: fast_json.dumps in an orjson worker and a stdlib worker (orjson hidden by a stub on PYTHONPATH, HAS_ORJSON "
                 "verified) x kwargs {none, compact separators, indent=2}; every distinct text loaded in both workers as str and bytes; "
                 "spec oracle = extracted backend_independent_ok / single_frame_ok on these observations; model = wrapper instantiated "
-                "with the reference codecs, compared byte-for-byte; contracts tested on the raw codecs and on mutated texts. "
+                "with the reference codecs, compared byte-for-byte; contracts tested on the raw codecs and on mutated texts; compact "
+                "encodings (both back ends) of messages carrying U+0085/2028/2029, escaped CR/LF and astral characters are each handed to "
+                "the REAL stdio reader as one line and must come out as exactly that one message. "
                 "distinct = distinct values; every case exercises both backends")
     return lib.finish(ctx, TRUSTED, ASSUME)
 
 
 def replay(ctx, data):
+    _c = data.get("case", {})
+    if isinstance(_c, dict) and "line" in _c and "message" in _c:
+        got = anyio.run(_reader_frames, [_c["line"].encode("utf-8")])[0]
+        want = json.dumps(_c["message"], sort_keys=True)
+        print("the real stdio reader delivered", len(got), "message(s) for the one line")
+        if got != [want]:
+            print("REPRODUCED", data.get("class"))
+        return 1 if got != [want] else 0
     spec = lib.Driver("C17Spec")
     v = ast.literal_eval(data["case"]["value"])
     dom = in_domain_py(v)
